@@ -238,6 +238,64 @@ def check_effects(ck):
     ck.stub("io_callback results: uninterpreted functions of their operands and a sequence number; their execution condition is the conjunction of the enclosing lax.cond branch predicates")
 
 
+def check_gym_adapter(ck):
+    """LeraxToGymEnv (the Gymnasium-facing adapter, a stateful Python object): CrossHair executes the REAL class symbolically over call sequences
+    (step / reset() / reset(seed), lengths 3 and 5) against a deterministic duck-typed environment; harness and stubs: props/c01_gym_harness.py"""
+    import os
+    import re
+    import subprocess
+    import sys
+    import time
+    path = os.path.join(core.ROOT, "props", "c01_gym_harness.py")
+    src = open(path).read().splitlines()
+    conds, cur = {}, None
+    for ln, text in enumerate(src, 1):
+        m = re.match(r"def (seq\d+)\(", text)
+        if m:
+            cur = m.group(1)
+        if text.strip().startswith("post:") and cur:
+            conds[ln] = cur
+    t0 = time.time()
+    p = subprocess.run([os.path.join(core.ROOT, ".venv", "bin", "crosshair"), "check", "--report_all", "--per_condition_timeout", "120" if ck.thorough else "60", path],
+                       capture_output=True, text=True, env=dict(os.environ), timeout=600, cwd=core.ROOT)
+    dt = time.time() - t0
+    ck.solver_time += dt
+    ck.functions.append({"function": "LeraxToGymEnv.reset / step (Python source, CrossHair; PRNG and jnp.asarray stubbed inside the adapter module)", "equations": 0, "inputs": 5, "outputs": 1})
+    seen = {}
+    for line in (p.stdout + "\n" + p.stderr).splitlines():
+        m = re.match(r".*?:(\d+): (info|error): (.*)", line)
+        if m and int(m.group(1)) in conds:
+            seen[int(m.group(1))] = (m.group(2), m.group(3))
+    for ln, fname in sorted(conds.items()):
+        oid = f"gym_adapter.contract_over_call_sequences@{fname}"
+        ob = ck._new(oid, "prove")
+        ob.solver = "crosshair (z3)"
+        ck.queries += 1
+        kind, msg = seen.get(ln, ("missing", "no verdict reported: " + (p.stderr or p.stdout)[-300:]))
+        if kind == "info" and "Confirmed over all paths" in msg:
+            ob.status = "unsat"
+            continue
+        if kind == "error":
+            m = re.search(r"when calling \w+\((.*?)\)", msg)
+            ops = [int(x) for x in re.findall(r"-?\d+", re.sub(r"\w+\s*=", "", m.group(1)))] if m else None
+            rep, info = False, {"crosshair": msg[:400]}
+            if ops is not None:
+                q = subprocess.run([sys.executable, "-W", "ignore", "-c", f"from props.c01_gym_harness import run_sequence; print('RESULT', run_sequence({ops!r}))"],
+                                   capture_output=True, text=True, env=dict(os.environ), cwd=core.ROOT, timeout=300)
+                rep = "RESULT False" in q.stdout
+                info.update({"call_sequence (0=step, 1=reset(), 2=reset(seed=1)) after an initial reset(seed=0)": ops, "contract_holds_on_the_real_adapter": "RESULT True" in q.stdout,
+                             "function": "LeraxToGymEnv driven through the Gymnasium API over a deterministic 2-step-episode environment"})
+            if rep:
+                ck._violation(ob, info, replay_info=info, reproduced=True)
+                continue
+            ob.status, ob.detail = "sat-unreproduced", str(info)[:500]
+        else:
+            ob.status, ob.detail = "unknown", msg[:300]
+        ck.inconclusive.append(ob)
+        ck.log(f"INCONCLUSIVE {oid}: {ob.detail}")
+    ck.stub("LeraxToGymEnv harness: jax.random inside the adapter module is a pure-Python free key algebra and jnp.asarray the identity (JAX's dispatch caches make re-executions differ, which CrossHair rejects); environment = deterministic duck-typed stand-in with (episode, t) states")
+
+
 def _eqns(jaxpr):
     for e in jaxpr.eqns:
         yield e
@@ -296,6 +354,8 @@ def main():
     ck.notes.append(f"stacks skipped because a layer cannot be constructed (reported by C13): {sorted(set(skipped))[:40]}")
     with ck.section("effects"):
         check_effects(ck)
+    with ck.section("gym_adapter"):
+        check_gym_adapter(ck)
     # every built-in environment class inherits step/reset (no override): the contract proved above is the code they run
     with ck.section("inherit"):
         from lerax.env.base_env import AbstractEnvLike
